@@ -268,6 +268,44 @@ def run_image_case(ctx, d):
                        d, {"min": float(img[k].min()), "max": float(img[k].max()), "lo": lo, "hi": hi})
 
 
+def run_default_names_case(ctx, d):
+    """leaves created with DEFAULT names, compiled more than once (alone, inside an expression, again)"""
+    import tensorflow as tf
+    from xplique.features_visualizations import Objective
+    rng = np.random.default_rng(d["case_seed"])
+    mseed = d["model_seed"]
+    model = get_model(tf, mseed)
+    ch = sorted(int(i) for i in rng.permutation(3)[: int(rng.integers(1, 4))])
+    ne = sorted(int(i) for i in rng.permutation(4)[: int(rng.integers(1, 4))])
+    ctx.case(d, True)
+    ctx.count("default_names_cases")
+
+    def build():
+        a = Objective.channel(model, f"conv{mseed}", ch)
+        b = Objective.neuron(model, f"dense{mseed}", ne)
+        c = Objective.direction(model, f"dense{mseed}", np.ones(4, np.float32))
+        return a, b, c
+    ok, leaves = ctx.impl_call(d, build, signature="default-names")
+    if not ok:
+        return
+    a, b, c = leaves
+    want_a = [f"Channel#conv{mseed}_{i}" for i in ch]
+    want_b = [f"Neuron#dense{mseed}_{i}" for i in ne]
+    want_c = [f"Direction#dense{mseed}_0"]
+    want_expr = [" & ".join(t) for t in itertools.product(want_a, want_b, want_c)]
+    seq = [("expr", lambda: (a + 2.0 * b - c).compile(), want_expr), ("leaf-a", lambda: a.compile(), want_a),
+           ("expr-again", lambda: (a + 2.0 * b - c).compile(), want_expr), ("leaf-b", lambda: b.compile(), want_b),
+           ("leaf-a-again", lambda: a.compile(), want_a)]
+    for tag, fn, want in seq:
+        ok, comp = ctx.impl_call(d, fn, signature="compile:" + tag)
+        if not ok:
+            return
+        _, _, names, input_shape = comp
+        got = [str(v) for v in names]
+        ctx.check_prop("cartesian-product-names", got == want and int(input_shape[0]) == len(want), d,
+                       {"compile": tag, "names": got[:6], "expected": want[:6], "nb_inputs": int(input_shape[0])})
+
+
 def gen_cases(ctx):
     rng = ctx.rng
     thorough = ctx.tier == "thorough"
@@ -290,6 +328,8 @@ def gen_cases(ctx):
             n += 1
         cases.append({"type": "objective", "atoms": kinds, "prog": prog, "model_seed": int(rng.integers(3)),
                       "case_seed": int(rng.integers(1 << 31))})
+    for _ in range((40 if thorough else 6) * ctx.budget_scale):
+        cases.append({"type": "default-names", "model_seed": int(rng.integers(3)), "case_seed": int(rng.integers(1 << 31))})
     nimg = (120 if thorough else 24) * ctx.budget_scale
     for _ in range(nimg):
         kind = str(rng.choice(["valid", "valid", "fft", "maco"]))
@@ -304,6 +344,8 @@ def gen_cases(ctx):
 def run_case(ctx, d):
     if d["type"] == "objective":
         run_objective_case(ctx, d)
+    elif d["type"] == "default-names":
+        run_default_names_case(ctx, d)
     else:
         run_image_case(ctx, d)
 
